@@ -154,6 +154,17 @@ pub fn run(ctx: &Ctx, out: &mut CaseOut) {
             prog.impls.push(MImpl { nvars: 1, head: MPred::new(&t0.name, vec![MTy::app("Vec", vec![MTy::Var(0)])]), wheres: vec![MPred::new(&t0.name, vec![MTy::Var(0)])], positive: true, ..Default::default() });
         }
     }
+    // every 4th case: the multi-answer fragment (several answers per goal, shared sub-tables, a floundering strand)
+    let multi = ctx.k % 4 == 3;
+    let (prog, multi_goals) = if multi {
+        let (p, mut g) = gen_multi_answer(&mut r);
+        g.retain(|x| !x.1.is_empty());
+        r.shuffle(&mut g);
+        (p, g)
+    } else {
+        (prog, vec![])
+    };
+    let exact = exact || multi;
     let text = program_text(&prog);
     let l = match load(&text, slg(), false) {
         Ok(l) => l,
@@ -162,9 +173,11 @@ pub fn run(ctx: &Ctx, out: &mut CaseOut) {
             return;
         }
     };
+    // the previous goal of this case: used for "some answers of another goal were pulled first" histories
+    let mut prev: Option<(String, Vec<usize>)> = None;
     for gi in 0..6 {
         let gcfg = GoalCfg { closed_only: false, allow_not: false, allow_eq: true, need_exists: true };
-        let (goal, exs) = gen_goal(&mut r, &prog, &gcfg);
+        let (goal, exs) = if multi { multi_goals[gi % multi_goals.len()].clone() } else { gen_goal(&mut r, &prog, &gcfg) };
         if exs.is_empty() {
             continue;
         }
@@ -219,9 +232,29 @@ pub fn run(ctx: &Ctx, out: &mut CaseOut) {
                 }
                 judge_enum(out, "resumed", &again, &mut sem, &uni, &goal, &ex, exact, &text, &gtext, db2.nonground_coinductive.get());
             }
+            // a few answers of the previous goal first (shared tables are left partially evaluated), then this goal
+            if let Some((ptext, pexs)) = &prev {
+                if let Ok(pp) = lower_and_peel(&l, ptext, pexs) {
+                    let db3 = FaultDb::new(&*l.program, "slg");
+                    db3.budget.set(400_000);
+                    let mut s3 = slg().into_solver();
+                    let k = 1 + r.below(4);
+                    let first = enumerate(&l, &mut *s3, &db3, &pp, k);
+                    if first.panic.is_none() {
+                        let then = enumerate(&l, &mut *s3, &db3, &peeled, 40);
+                        out.evals += 2;
+                        if then.panic.is_some() {
+                            out.count("solve-panicked(not judged here; see C09)");
+                        } else {
+                            judge_enum(out, "after-partial-other-goal", &then, &mut sem, &uni, &goal, &ex, exact, &text, &gtext, db3.nonground_coinductive.get());
+                        }
+                    }
+                }
+            }
         });
         if gi == 0 {
             out.sample = Some(J::obj().set("program", text.as_str()).set("goal", gtext.as_str()));
         }
+        prev = Some((gtext.clone(), exs.clone()));
     }
 }
